@@ -115,9 +115,8 @@ impl TextAttribute {
             fg |= 0b_1000;
         }
         let bg = match ice_mode {
-            IceMode::Blink => self.background_color & 0b_0111 | if self.is_blinking() { 0b_1000 } else { 0 },
-            // from_u8 reads bit 7 as blink in unlimited mode, so it has to be written there as well
-            IceMode::Unlimited => self.background_color & 0b_1111 | if self.is_blinking() { 0b_1000 } else { 0 },
+            // from_u8 reads bit 7 as blink in unlimited mode as well, a high background must not set it
+            IceMode::Blink | IceMode::Unlimited => self.background_color & 0b_0111 | if self.is_blinking() { 0b_1000 } else { 0 },
             IceMode::Ice => self.background_color & 0b_1111,
         };
         (fg | bg << 4) as u8
